@@ -251,6 +251,32 @@ control("C11", "ChangingIndex mixes units",
         [(FA, "        values[index] = scalar.GetValue(quantity.GetUnit())", "        values[index] = scalar.GetValue(self.GetUnit())")], "C11.R3")
 control("C11", "CheckValues accepts longer containers",
         [(FA, "        if len(values) != dimension:\n            msg", "        if len(values) < dimension:\n            msg")], "C11.R1")
+# ------------------------------------------------------------------------------------------ C12
+control("C12", "exclusive minimum tested with >=",
+        [(Q, "                    if not value > category_info.min_value:\n                        self._RaiseValueError(value, \">\", category_info.min_value, use_literals)", "                    if not value >= category_info.min_value:\n                        self._RaiseValueError(value, \">=\", category_info.min_value, use_literals)")], "C12.R1")
+control("C12", "reports < while testing <=",
+        [(Q, "                        self._RaiseValueError(value, \"<=\", category_info.max_value, use_literals)", "                        self._RaiseValueError(value, \"<\", category_info.max_value, use_literals)")], "C12.R1")
+control("C12", "NaN-accepting form value <= min instead of not value > min",
+        [(Q, "                    if not value > category_info.min_value:", "                    if value <= category_info.min_value:")], "C12.R1")
+control("C12", "maximum compared with the minimum limit",
+        [(Q, "                    if not value <= category_info.max_value:", "                    if not value <= category_info.min_value:")], "C12.R1")
+control("C12", "limits compared before converting to the default unit",
+        [(Q, "            if unit != category_info.default_unit:\n                value = self.ConvertScalarValue(\n                    value, category_info.default_unit  # type:ignore[arg-type]\n                )\n", "            if unit != category_info.default_unit:\n                converted = self.ConvertScalarValue(\n                    value, category_info.default_unit  # type:ignore[arg-type]\n                )\n")], "C12.R2")
+control("C12", "CheckValue(max_value) dropped from the Array scan",
+        [(AR, "                            CheckValue(min_value)\n                            CheckValue(max_value)", "                            CheckValue(min_value)")], "C12.R3")
+control("C12", "NaN skip dropped from the inner scan loop",
+        [(AR, "                                if isnam(value):\n                                    # NaNs would fail the min_value validation below.\n                                    continue\n", "")], "C12.R3")
+control("C12", "max accumulator updated under <",
+        [(AR, "                                elif value > max_value:", "                                elif value < max_value:")], "C12.R3")
+control("C12", "FractionScalar validates only the number part",
+        [(FS, "        self._quantity.CheckValue(float(self._value))", "        self._quantity.CheckValue(self._value.GetNumber())")], "C12.R3")
+control("C12", "IsValid catches only TypeError",
+        [(A, "        try:\n            self.CheckValidity()\n        except ValueError:\n            return False", "        try:\n            self.CheckValidity()\n        except TypeError:\n            return False")], "C12.R5")
+control("C12", "inherited default value is not asserted against the limits",
+        [(UD, "            if default_value is None:\n                default_value = category_info.default_value\n", ""),
+         (UD, "        if default_value is None:\n            if is_min_exclusive or is_max_exclusive:", "        if default_value is None and from_category:\n            default_value = self.GetCategoryInfo(from_category).default_value\n        elif default_value is None:\n            if is_min_exclusive or is_max_exclusive:")], "C12.R6")
+control("C12", "exclusive limits no longer require a default",
+        [(UD, "            if is_min_exclusive or is_max_exclusive:\n                raise RuntimeError(\"default_value must be supplied\")\n            elif min_value is not None:", "            if min_value is not None:")], "C12.R6")
 # ------------------------------------------------------------------------------------------ running
 def _apply(edits):
     overlay = {}
